@@ -1,5 +1,6 @@
-// Package mx runs murex code through the public API of the real, natively compiled
-// interpreter (used by native replay drivers; never interpreted by symgo).
+// Package mx runs murex code through the public API of the real interpreter: natively
+// (replay drivers) and under symgo (end-to-end harnesses: the whole interpreter is
+// executed symbolically, the block text may contain symbolic bytes).
 package mx
 
 import (
@@ -10,15 +11,18 @@ import (
 	"github.com/lmorg/murex/config/defaults"
 	"github.com/lmorg/murex/lang"
 	"github.com/lmorg/murex/lang/ref"
+	"github.com/lmorg/murex/zzverif/rt"
 )
 
 var once sync.Once
 
 // Init initialises the interpreter once.
 func Init() {
-	once.Do(func() {
-		defaults.Config(config.InitConf, false)
-		lang.InitEnv()
+	rt.Persistent(func() {
+		once.Do(func() {
+			defaults.Config(config.InitConf, false)
+			lang.InitEnv()
+		})
 	})
 }
 
